@@ -19,15 +19,17 @@ class ElementQuadN1(ElementHcurl):
     def lbasis(self, X, i):
         x, y = X
         nil = np.zeros_like(x)
+        # each function runs from the first to the second vertex of its
+        # facet in RefQuad.facets, as ElementHcurl.orient assumes
         if i == 0:
-            phi = np.array([y - 1.0, nil])
-            dphi = -np.ones_like(x)
+            phi = np.array([1.0 - y, nil])
+            dphi = np.ones_like(x)
         elif i == 1:
             phi = np.array([nil, x])
             dphi = np.ones_like(x)
         elif i == 2:
-            phi = np.array([y, nil])
-            dphi = -np.ones_like(x)
+            phi = np.array([-y, nil])
+            dphi = np.ones_like(x)
         elif i == 3:
             phi = np.array([nil, 1.0 - x])
             dphi = -np.ones_like(x)
